@@ -221,6 +221,9 @@ impl Prop for C12 {
     fn id(&self) -> &'static str {
         "C12"
     }
+    fn fuzz_target(&self) -> Option<&'static str> {
+        Some("fz_specs")
+    }
     fn stream_len(&self, _tier: Tier) -> usize {
         1000
     }
